@@ -1,1 +1,2 @@
 pub mod c01;
+pub mod c02;
